@@ -8,7 +8,12 @@ REPO=${VERIF_REPO:-/repo}
 if [ -n "$(git -C $REPO status --porcelain --untracked-files=no)" ]; then echo "$REPO is not clean"; exit 2; fi
 ids=${@:-$(ls seeded)}
 for id in $ids; do
-  prop=$(/venv/bin/python -c "import json;print(json.load(open('seeded/$id/meta.json'))['property'])")
+  [ -d seeded/$id ] || continue
+  prop=$(/venv/bin/python -c "
+import json,re
+m=json.load(open('seeded/$id/meta.json'))
+p=m.get('property') or {'b09':'C09','b15':'C15','b17':'C17'}.get('$id'.split('-')[-1][:3],'')
+print(re.match(r'C[0-9][0-9]', p).group(0))")
   git -C $REPO apply "$PWD/seeded/$id/patch.diff" || { echo "$id: patch does not apply"; continue; }
   out=$(VERIF_NO_MUTANTS=1 /venv/bin/python check $prop --tier ${VERIF_TIER:-quick} 2>&1); rc=$?
   git -C $REPO checkout -- .
